@@ -108,6 +108,12 @@ def finish(prop, a, results, units, world, t0, seed, run_harness, extra=None):
             lines.append("VIOLATION property=%s replay=%s obligation=%s" % (prop, rel, o["name"]))
             o["replayed"] = True
             samples_replayed.append({"obligation": o["name"], "args": rp["args"], "real": verdict})
+        elif o.get("shape_only"):
+            # the obligation says "the code has the shape the proof was made for"; the replay is the behavioural
+            # test of that shape.  It found no failing input: the code changed shape, not (observably) behaviour.
+            o["status"] = "undecided"
+            o["detail"] = (o.get("detail") or "") + " | code no longer has the expected shape, but the behavioural replay found no failing input"
+            undecided.append(o)
         elif o["name"] in base or o.get("no_input_expected"):
             nviol += 1
             lines.append("VIOLATION property=%s replay=%s obligation=%s no-failing-input-found" % (prop, rel, o["name"]))
